@@ -8,15 +8,15 @@
 mod capture;
 pub mod verif_hooks;
 
-#[path = "/repo/src/chess/mod.rs"]
+#[path = "../repo/src/chess/mod.rs"]
 pub mod chess;
-#[path = "/repo/src/search.rs"]
+#[path = "../repo/src/search.rs"]
 #[allow(dead_code)]
 mod search;
-#[path = "/repo/src/uci.rs"]
+#[path = "../repo/src/uci.rs"]
 #[allow(dead_code)]
 mod uci;
-#[path = "/repo/src/autoplay.rs"]
+#[path = "../repo/src/autoplay.rs"]
 #[allow(dead_code)]
 mod autoplay;
 mod constants;
@@ -74,7 +74,7 @@ fn real_main(mut args: Vec<String>) -> i32 {
         Some((it.next()?.parse().ok()?, it.next()?.parse().ok()?))
     });
     args.retain(|a| !a.starts_with("--autoplay="));
-    match refchess::Keys::load("/repo/zobrist_bytes.bin") {
+    match refchess::Keys::load(&format!("{}/zobrist_bytes.bin", std::env::var("VERIF_REPO").unwrap_or_else(|_| "/repo".to_string()))) {
         Ok(k) => {
             let _ = props::core::KEYS.set(k);
         }
